@@ -133,8 +133,9 @@ def run_case(ctx, i, rng):
             fc = fan.create_cable("fnet", wires=1)
             for k_ in range(rng.choice([33, 40, 64, 100])):
                 ch_ = fan.create_child("s%d" % k_, reference=lf_)
-                if k_ % 7 == 0:
-                    fc.wires[0].connect_pin(next(iter(ch_.pins)))
+                first_ = next(iter(ch_.pins), None)       # (a leaf may have ports without pins)
+                if k_ % 7 == 0 and first_ is not None:
+                    fc.wires[0].connect_pin(first_)
             topd_.create_child("fan_a", reference=fan)
             topd_.create_child("fan_b", reference=fan)
             ctx.count("netlists_with_dozens_of_siblings")
